@@ -38,6 +38,8 @@ type Config struct {
 
 	Plan []Action `json:"plan"`
 
+	Scenario      string `json:"scenario,omitempty"`        // control families: the one root cause / history class of this run
+	FaultOnlyKeys string `json:"fault_only_keys,omitempty"` // db.err is injected only on keys with this prefix
 	Hostile    bool `json:"hostile,omitempty"`     // some plugin answers with hostile shapes
 	HostileSrc bool `json:"hostile_src,omitempty"` // ... including sources (positions ambiguous)
 	// Healthy: no injected faults, every outcome tolerated: exact drain / liveness oracles apply.
@@ -74,6 +76,7 @@ type ProcCfg struct {
 	ShortPct  int `json:"short_pct,omitempty"` // v2: return fewer results than inputs for this call
 	Hostile   int `json:"hostile_pct,omitempty"`
 	OpenFail  int `json:"open_fail,omitempty"` // generation whose Open fails (0 = none)
+	Stuck     bool `json:"stuck,omitempty"`    // never makes progress: every result is "retry"
 }
 
 type DLQCfg struct {
